@@ -15,11 +15,16 @@ def variant(case, v):
     r = random.Random(v)
     c["sched"] = r.randrange(1 << 30)
     for s in c["steps"]:
-        if s["k"] == "xf":
+        if s["k"] in ("xf", "exec"):
             s["yields"] = r.choice([0, 0, 1, 2, 3, 5, 12, 30])
     if v != 0:
         for p in c["inputs"]:
             r.shuffle(c["inputs"][p])
+    # a cartesian/dot combinator must see each of its ports deliver first in some variant
+    lag = [s for s in c["steps"] if s["n"] in ("/da", "/db")]
+    if len(lag) == 2 and v != 0:
+        first = r.randrange(2)
+        lag[first]["yields"], lag[1 - first]["yields"] = 0, r.choice([8, 20, 40])
     return c
 
 
@@ -36,8 +41,10 @@ class C05(Prop):
         "state, so every port carries the same history and every output port the same tag->value map; no hypothesis "
         "on the round function or the graph; (b) composition: in an acyclic network of order-insensitive processes "
         "(output bags a function of input bags) any two complete behaviours carry equal bags on every port. "
-        "Order-insensitivity of the merge-style steps (combinators, gather, loop output, concurrent jobs) is an "
-        "assumption of (b) (C01/C02/C06 are where it is established); for tag-grouping steps it needs the shape "
+        "Order-insensitivity is a theorem for GatherStep, LoopOutputStep, the flat dot product and the cartesian product "
+        "(C05_contract_*: corollaries of the C01/C06/C02 models, in their own token types); it stays an assumption for "
+        "ExecuteStep with concurrent jobs, LoopCombinatorStep and the embedding of those models into the network's "
+        "histories; for tag-grouping steps it needs the shape "
         "hypothesis, shown necessary by a refutation witness. Tied to /repo by running each generated workflow under "
         "several seeded permuting event loops, with different suspension points and different orders of the injected "
         "tokens, comparing the output ports' tag->value bags between runs (oracle) and with the model.")
@@ -65,6 +72,11 @@ class C05(Prop):
             cases.append(c)
         for _ in range(n_sg):
             c = netlib.gen_sg_net(rng, fail_p=0.0)
+            c["f"] = "det"
+            c["variants"] = [0] + [rng.randrange(1, 1 << 30) for _ in range(3)]
+            cases.append(c)
+        for _ in range({"quick": 12, "thorough": 60, "extended": 40}[tier]):
+            c = netlib.gen_exec_net(rng, fail_p=0.0)
             c["f"] = "det"
             c["variants"] = [0] + [rng.randrange(1, 1 << 30) for _ in range(3)]
             cases.append(c)
